@@ -219,13 +219,13 @@ def rnd_expr(rng):
     return Add(*terms)
 
 
-def generated_exprs(ctx, n):
+def generated_exprs(ctx, n, expanded=True, tag="gen"):
     rng = ctx.rng
     out = []
     for k in range(n):
         e = rnd_expr(rng)
-        if rng.random() < 0.6:
-            e = e.expand() if not e.atoms(NO) else e
+        if expanded:
+            e = e.expand()
         E = Expr(e)
         r = rng.random()
         ts = list(E.sympy.atoms(AntiSymmetricTensor))
@@ -245,7 +245,7 @@ def generated_exprs(ctx, n):
             E = Expr(e, sym_tensors=sy, antisym_tensors=an + anti)
         elif anti:
             E = Expr(e, antisym_tensors=anti)
-        out.append((f"gen{k}", E))
+        out.append((f"{tag}{k}", E))
     return out
 
 
@@ -373,20 +373,33 @@ def run(ctx):
     # ---------------- valid expressions --------------------------------------
     exprs = fixed_exprs() + derivation_exprs(ctx, quick) + \
         generated_exprs(ctx, 250 if quick else 1500)
+    # not expanded: outside the property's quantifier, used for the
+    # model/implementation correspondence only
+    raw = generated_exprs(ctx, 80 if quick else 400, expanded=False, tag="raw")
     seen, cases = set(), []
-    for label, E in exprs:
+    for label, E in exprs + raw:
         s = str(E)
         if s in seen:
             continue
         seen.add(s)
-        cases.append({"label": label, "E": E, "s": s})
+        strict = not label.startswith("raw")
+        if strict and label.startswith(("fixed", "gen")):
+            # the property is about expanded expressions
+            strict = (S(E.sympy).expand() == E.sympy)
+        cases.append({"label": label, "E": E, "s": s, "strict": strict})
     ctx.extra["campaign_strings"] = len(cases)
+    ctx.extra["campaign_strings_expanded"] = sum(c["strict"] for c in cases)
 
     # 1. the property in the implementation, case by case
     pairs = []
     for c in cases:
         E, s = c["E"], c["s"]
         c["imp"] = py_import(s)
+        if not c["strict"]:
+            if c["imp"][0] == "ok":
+                R = Expr(c["imp"][1], **E.assumptions)
+                c["kinds_ok"] = U.kinds_of(E) == U.kinds_of(R)
+            continue
         if c["imp"][0] != "ok":
             ctx.obligation(f"import of printed text {c['label']}", False,
                            c["imp"][1])
@@ -406,7 +419,8 @@ def run(ctx):
                           True)
         k1, k2 = U.kinds_of(E), U.kinds_of(R)
         c["kinds_ok"] = (k1 == k2)
-        c["value_ok"] = (S(R.sympy - E.sympy) == 0)
+        c["value_ok"] = (R.sympy == E.sympy or
+                         S(R.sympy - E.sympy).expand() == 0)
         if not c["kinds_ok"]:
             diff = sorted(set(k2) - set(k1))
             only_d = all(d[1] == tensor_names.sym_orb_denom for d in diff)
@@ -435,8 +449,16 @@ def run(ctx):
 
     # same classes but not syntactically equal: value via the verified validator
     if pairs:
-        EQ.run_pairs(ctx, "value", [p for _, p in pairs], shard=30)
+        EQ.run_pairs(ctx, "value", [p for _, p in pairs], shard=30,
+                     search=False)
         for c, p in pairs:
+            if p.ok is False and len(S(c["E"].sympy).atoms(
+                    sys.modules["adcgen.indices"].Index)) <= 8:
+                import numeric
+                try:
+                    p.diff = numeric.find_difference(p.p1, p.p2, p.tg, rng)
+                except Exception as ex:
+                    p.err = f"numeric search failed: {ex!r}"
             if p.ok is None:
                 ctx.note(f"{p.label}: value comparison outside the validator "
                          f"({p.err}); sympy difference "
